@@ -79,9 +79,14 @@ class DNSCache:
         # direction would return the old incorrect entry.
         store = self.cache.setdefault(record.key, {})
         new = record not in store and not isinstance(record, DNSNsec)
+        # Assigning to an existing key keeps the old key object; remove it first
+        # so the key and the value are always the same live record.
+        store.pop(record, None)
         store[record] = record
         if isinstance(record, DNSService):
-            self.service_cache.setdefault(record.server_key, {})[record] = record
+            service_store = self.service_cache.setdefault(record.server_key, {})
+            service_store.pop(record, None)
+            service_store[record] = record
         return new
 
     def async_add_records(self, entries: Iterable[DNSRecord]) -> bool:
